@@ -3,6 +3,7 @@ package main
 import (
 	gocontext "context"
 	"encoding/hex"
+	"fmt"
 	"strings"
 	"sync"
 
@@ -35,6 +36,7 @@ func genYConc(r *Rng, tier string, n int, emit func(Case)) {
 type concJob struct {
 	text string
 	run  func(m *xpath.Machine) string
+	fail func(m *xpath.Machine, k int) // a run that the data tree makes fail at its k-th callback
 }
 
 func subJob(sub map[string]any) concJob {
@@ -42,10 +44,15 @@ func subJob(sub map[string]any) concJob {
 		env := carr(sub, "env")
 		return concJob{renderFull(cmap(sub, "e")), func(m *xpath.Machine) string {
 			return showResult(xpath.NewCtxFromCurrent(gocontext.Background(), m, &mockEntry{t: envToTree(env)}).Run())
+		}, func(m *xpath.Machine, k int) {
+			t := envToTree(env)
+			t.failAt, t.failErr = k, fmt.Errorf("injected-fault-%d", k)
+			xpath.NewCtxFromCurrent(gocontext.Background(), m, &mockEntry{t: t}).Run()
 		}}
 	}
 	b, _ := hex.DecodeString(cstr(sub, "hex"))
-	return concJob{string(b), func(m *xpath.Machine) string { return runPathOnce(m, 0) }}
+	return concJob{string(b), func(m *xpath.Machine) string { return runPathOnce(m, 0) },
+		func(m *xpath.Machine, k int) { runPathOnce(m, k) }}
 }
 
 func runYConc(c Case) string {
@@ -85,6 +92,11 @@ func runYConc(c Case) string {
 			for k := 0; k < 3; k++ {
 				note(i, "sequential rerun", j.run(machs[i]))
 			}
+			// a run that fails part way through leaves nothing behind for the next one
+			for k := 1; k <= 4; k++ {
+				j.fail(machs[i], k)
+				note(i, "run after a failed run", j.run(machs[i]))
+			}
 		}
 	}
 	// concurrent runs of the same machines, while the same and other expressions are compiled and run
@@ -95,12 +107,15 @@ func runYConc(c Case) string {
 		}
 		for g := 0; g < 4; g++ {
 			wg.Add(1)
-			go func(i int, j concJob) {
+			go func(g, i int, j concJob) {
 				defer wg.Done()
 				for k := 0; k < 5; k++ {
+					if g == 3 {
+						j.fail(machs[i], 1+k%3)
+					}
 					note(i, "concurrent run", j.run(machs[i]))
 				}
-			}(i, j)
+			}(g, i, j)
 		}
 	}
 	for g := 0; g < 3; g++ {
